@@ -1,0 +1,58 @@
+//go:build verif
+
+// Contracts for the kvc verifier (see /verif/DESIGN.md). This file is comment-only:
+// with the "verif" build tag off it is invisible, with it on it adds no code.
+
+package util
+
+//@ method util.Unpackable Unpack(data []byte) (n uint, err error)
+//@   props C01
+//@   decoder
+//@   ensures [consumed] err == nil ==> n <= uint(len(data))
+
+//@ func unpackUInt16(data []byte, output *uint16) (n uint, err error)
+//@   props C01
+//@   decoder
+//@   requires output != nil
+//@   ensures [consumed] err == nil ==> n <= uint(len(data))
+//@   ensures [accept] err == nil <==> len(data) >= 2
+//@   ensures [value] err == nil ==> n == 2 && *output == uint16(data[0])<<8 | uint16(data[1])
+//@   ensures [reject] err != nil ==> n == 0 && *output == old(*output)
+//@   assigns *output
+
+//@ func unpackUInt32(data []byte, output *uint32) (n uint, err error)
+//@   props C01
+//@   decoder
+//@   requires output != nil
+//@   ensures [consumed] err == nil ==> n <= uint(len(data))
+//@   ensures [accept] err == nil <==> len(data) >= 4
+//@   ensures [value] err == nil ==> n == 4 && *output == uint32(data[0])<<24 | uint32(data[1])<<16 | uint32(data[2])<<8 | uint32(data[3])
+//@   ensures [reject] err != nil ==> n == 0 && *output == old(*output)
+//@   assigns *output
+
+//@ func unpackUInt64(data []byte, output *uint64) (n uint, err error)
+//@   props C01
+//@   decoder
+//@   requires output != nil
+//@   ensures [consumed] err == nil ==> n <= uint(len(data))
+//@   ensures [accept] err == nil <==> len(data) >= 8
+//@   ensures [value] err == nil ==> n == 8 && *output == uint64(data[0])<<56 | uint64(data[1])<<48 | uint64(data[2])<<40 | uint64(data[3])<<32 | uint64(data[4])<<24 | uint64(data[5])<<16 | uint64(data[6])<<8 | uint64(data[7])
+//@   ensures [reject] err != nil ==> n == 0 && *output == old(*output)
+//@   assigns *output
+
+//@ func Unpack(data []byte, output interface{}) (n uint, err error)
+//@   props C01
+//@   decoder
+//@   inline
+//@   requires payload(output) != 0
+//@   ensures [consumed] err == nil ==> n <= uint(len(data))
+
+//@ func UnpackSome(data []byte, outputs ...interface{}) (n uint, err error)
+//@   props C01
+//@   decoder
+//@   inline
+//@   requires forall i in 0..len(outputs) :: payload(outputs[i]) != 0
+//@   ensures [consumed] err == nil ==> n <= uint(len(data))
+//@   loop 0 invariant n <= uint(len(data)) && -1 <= rangeindex && rangeindex < len(outputs)
+//@   loop 0 decreases len(outputs) - rangeindex
+//@   loop 0 assigns nothing
